@@ -10,7 +10,6 @@ Collection of utilities and transformations altering routine signatures.
 """
 
 import os
-import itertools as it
 from loki.batch import Transformation, ProcedureItem
 from loki.ir import (
     VariableDeclaration, FindVariables,
@@ -77,8 +76,12 @@ def remove_duplicate_args_from_calls(routine, rename_common=False):
         arg_map = {}
         for routine_arg, call_arg in call.arg_iter():
             arg_map.setdefault(call_arg, []).append(routine_arg)
-        # filter duplicate kwargs (comparing to the other kwarguments)
-        _new_kwargs = as_tuple(list(kw_vals)[0] for g, kw_vals in it.groupby(call.kwarguments, key=lambda x: x[1]))
+        # filter duplicate kwargs (comparing to the other kwarguments): keep the first keyword of
+        # each value, wherever the later ones stand (consistent with ``arg_map`` above)
+        _new_kwargs = {}
+        for kwarg in call.kwarguments:
+            _new_kwargs.setdefault(kwarg[1], kwarg)
+        _new_kwargs = as_tuple(_new_kwargs.values())
         # filter duplicate kwargs (comparing to the arguments)
         new_kwargs = tuple(kwarg for kwarg in _new_kwargs if kwarg[1] not in call.arguments)
         # (filter duplicate arguments and) update call
